@@ -7,6 +7,8 @@
 (*   tfail(i)       task i returns an error now (script)                      *)
 (*   tearly(i)      task i returns nil now without having been cancelled      *)
 (*   tobs(i, term)  task i observed cancellation and read terminate() = term  *)
+(*   tsaw(i)        task i observed cancellation (before it reads terminate())*)
+(*   tgate(held)    the driver holds / lets go of the terminator's mutex      *)
 (*   texit(i)       task i's Run returned                                     *)
 (*   signal(term)   a signal was delivered; term = (signal # SIGHUP)          *)
 (*   nready         READY=1 arrived on the notify socket                      *)
@@ -16,7 +18,7 @@ EXTENDS Integers, Sequences, FiniteSets
 
 SInit(n) == [n |-> n, started |-> {}, ready |-> {}, exited |-> {}, failed |-> {}, obs |-> {},
              sig |-> "none", sigterm |-> FALSE, cancelled |-> FALSE, nready |-> FALSE, sret |-> "none",
-             held |-> {}, bad |-> {}]
+             held |-> {}, tgate |-> FALSE, bad |-> {}]
 SFlag(s, c) == [s EXCEPT !.bad = @ \cup {c}]
 Tasks(s) == 1..s.n
 
@@ -35,6 +37,11 @@ OnTObs(s, e) ==
       s2 == IF s.sig = "sent" /\ s.failed = {} /\ e.term # s.sigterm
             THEN SFlag(s1, "c20-terminate-flag-not-set-before-cancellation") ELSE s1
   IN [s2 EXCEPT !.obs = @ \cup {e.i}]
+
+\* While the driver holds the terminator's mutex the signal kind cannot have been recorded yet, so nobody may see
+\* the cancellation that the signal causes.
+OnTGate(s, e) == [s EXCEPT !.tgate = e.held]
+OnTSaw(s, e)  == IF s.tgate /\ s.failed = {} THEN SFlag(s, "c20-terminate-flag-not-set-before-cancellation") ELSE s
 
 OnTExit(s, e) == LET s1 == IF s.sret # "none" THEN SFlag(s, "c20-task-returned-after-serve") ELSE s IN
                  [s1 EXCEPT !.exited = @ \cup {e.i}]
